@@ -151,8 +151,11 @@ pub fn c18(cx: &Ctx, rep: &mut Report) {
         }
     }
     // ---------------- (f) butterfly-path family: maximise one NTT output slot (complete enumeration per layer)
+    let mut growth_by_set: std::collections::HashMap<usize, Vec<crate::e8::Growth>> = std::collections::HashMap::new();
     for api in APIS {
         c18_butterfly_path(api.p, cx, rep);
+        // (f2) the same objective evaluated through the subject's own transform, with two free inputs per layer (E8)
+        let _ = growth_by_set.insert(api.p.id as usize, c18_forward_growth(api.p, cx, rep));
     }
     // ---------------- (g) aligned-product family: in-range matrix rows built so that every Montgomery product on a
     // chosen slot mask sits just below +-q/2 (the largest value one product can take)
@@ -220,6 +223,7 @@ pub fn c18(cx: &Ctx, rep: &mut Report) {
         let mut vcases: Vec<crate::forge::VCase> = e7::load_witnesses(p).into_iter().map(|(_, c)| c).collect();
         vcases.extend(crate::forge::butterfly_cases(p, &pk0, &pk0b));
         vcases.extend(e7::slot_max_cases(p, cx.tier == Tier::Thorough).into_iter().map(|(c, _)| c));
+        vcases.extend(growth_vcases(p, growth_by_set.get(&(p.id as usize)).map(|v| &v[..]).unwrap_or(&[]), &pk0, &pk0b));
         crate::checks_b::eval_vcases(api, &vcases, rep, "c18:verify");
         rep.extra.insert(format!("largest_row_sum_over_q_mldsa{}", p.id), json!(best));
         rep.sample(json!({"set":p.id,"sparse_coset_witnesses":ws.iter().map(|w| w.name.clone()).collect::<Vec<_>>(),"largest_row_sum_over_q":best,"i32_overflow_threshold_over_q":256.25}));
@@ -284,6 +288,90 @@ fn c18_butterfly_path(p: &'static Params, cx: &Ctx, rep: &mut Report) {
         }
     }
     let _ = cx;
+}
+
+/// E8 witnesses for this parameter set: classes "t1" (the library transforms t1 itself and applies 2^d afterwards) and "t0" (computed once per process, the transform does not depend
+/// on the set) and "z" (range +-(gamma1 - beta - 1)). quick: z directly-multiplied coefficient scanned with stride 8 and
+/// 2 partner candidates, t0 with 64 partners, t1 complete (1024 x 1024 per layer); thorough: everything complete except the
+/// partner lists of t0 (256) and z (16).
+pub fn growth_witnesses(p: &'static Params, tier: Tier) -> Result<Vec<crate::e8::Growth>, crate::e8::GrowthPanic> {
+    use std::sync::OnceLock;
+    static SHARED: OnceLock<Result<Vec<crate::e8::Growth>, crate::e8::GrowthPanic>> = OnceLock::new();
+    let shared = SHARED.get_or_init(|| {
+        let mut v = crate::e8::forward_growth("t1", 0, 1023, 1, 1, 1024, &[1, -1])?;
+        v.extend(crate::e8::forward_growth("t0", -4095, 4096, 1, 1, tier.pick(64, 256), &[1, -1])?);
+        Ok(v)
+    });
+    let mut out = shared.clone()?;
+    out.extend(growth_z(p, tier)?);
+    Ok(out)
+}
+/// the response-vector class alone
+pub fn growth_z(p: &'static Params, tier: Tier) -> Result<Vec<crate::e8::Growth>, crate::e8::GrowthPanic> {
+    let g = (p.gamma1 - p.beta - 1) as i32;
+    crate::e8::forward_growth("z", -g, g, 1, tier.pick(8, 1), tier.pick(2, 16), &[1, -1])
+}
+
+/// (f2) forward-growth family (E8): kernel-level part
+fn c18_forward_growth(p: &'static Params, cx: &Ctx, rep: &mut Report) -> Vec<crate::e8::Growth> {
+    let ws = match growth_witnesses(p, cx.tier) {
+        Ok(w) => w,
+        Err(gp) => {
+            let w: Poly = core::array::from_fn(|i| gp.coeffs[i] * gp.scale);
+            rep.violate(viol(
+                &format!("forward-growth:search-panic:{}", gp.panic.0.split('@').next_back().unwrap_or("").trim()),
+                format!("ML-DSA-{}: the forward transform panicked on an in-range polynomial of class {} met during the E8 search: {}", p.id, gp.class, gp.panic.0),
+                json!({"engine":"kernel","kernel":"ntt_to_mont","set":p.id,"w":w.iter().enumerate().filter(|(_,&c)| c!=0).map(|(i,&c)| json!([i,c])).collect::<Vec<_>>()}),
+            ));
+            return Vec::new();
+        }
+    };
+    for g in &ws {
+        let w = g.input();
+        let name = format!("ML-DSA-{} forward-growth class {} sign {}", p.id, g.class, g.sign);
+        rep.count(&format!("f2:forward_growth:mldsa{}", p.id), g.evals);
+        rep.nontrivial_by_construction(g.evals);
+        let replay = json!({"engine":"kernel","kernel":"ntt_to_mont","set":p.id,"w":w.iter().enumerate().filter(|(_,&c)| c!=0).map(|(i,&c)| json!([i,c])).collect::<Vec<_>>()});
+        match guard(|| {
+            let h = hk::ntt(&[w]);
+            let mo = hk::to_mont(&h);
+            (h[0], mo[0])
+        }) {
+            Err(pn) => rep.violate(viol(&format!("forward-growth:panic:{}", pn.0.split('@').next_back().unwrap_or("").trim()), format!("{name}: ntt/to_mont panicked (slot 0 predicted {:.4} q): {}", g.predicted as f64 / Q as f64, pn.0), replay)),
+            Ok((h, mo)) => {
+                let peak = h.iter().map(|&c| i64::from(c).abs()).max().unwrap();
+                let e = rep.extra.entry(format!("largest_forward_ntt_output_over_q:{}:mldsa{}", g.class, p.id)).or_insert(json!(0.0));
+                if peak as f64 / Q as f64 > e.as_f64().unwrap_or(0.0) {
+                    *e = json!(peak as f64 / Q as f64);
+                }
+                let want = refmodel::ntt(&w);
+                let ok_ntt = canon(&h) == want;
+                let ok_mont = (0..256).all(|n| mod_q(i64::from(mo[n])) == ((i128::from(want[n]) << 32).rem_euclid(i128::from(Q))) as i64);
+                if !ok_ntt || !ok_mont {
+                    rep.violate(viol("forward-growth:wrong", format!("{name}: slot 0 = {:.4} q; ntt correct mod q: {ok_ntt}; to_mont congruent to x*2^32: {ok_mont}", g.actual as f64 / Q as f64), replay));
+                }
+                if g.actual != g.predicted {
+                    rep.assumptions.push(format!("{name}: separable prediction {} differs from the assembled value {} (search objective not exactly separable for this tree; witnesses still in range)", g.predicted, g.actual));
+                }
+            }
+        }
+    }
+    ws
+}
+
+/// valid zero-t1 forgeries whose response vector carries an E8 polynomial (first and last row)
+pub fn growth_vcases(p: &'static Params, ws: &[crate::e8::Growth], pk0: &refmodel::PkCtx, pkb: &std::sync::Arc<Vec<u8>>) -> Vec<crate::forge::VCase> {
+    let mut out = Vec::new();
+    for g in ws.iter().filter(|g| g.class == "z") {
+        for row in [0, p.l - 1] {
+            let mut z = vec![POLY0; p.l];
+            z[row] = g.coeffs;
+            let mp = refmodel::format_message(refmodel::Mode::Pure, b"forward-growth", b"").unwrap();
+            let sig = refmodel::forge_zero_t1(pk0, &mp, &z, &vec![POLY0; p.k], &vec![0u8; p.omega + p.k]);
+            out.push(crate::forge::VCase { class: format!("D7c:forward-growth:sign{}:row{row}", g.sign), pk: pkb.clone(), mode: refmodel::Mode::Pure, msg: b"forward-growth".to_vec(), ctx: vec![], sig, intent: Some(true) });
+        }
+    }
+    out
 }
 
 /// (g) aligned products
